@@ -54,6 +54,12 @@ def build_package():
             if t1 == t2:
                 cfs += [("neg", "-a", ("neg", t1)), ("lita", "a + 1", ("lit", t1, "+", 1)), ("litb", "2 * a", ("litl", t1, "*", 2)),
                         ("litf", "a * 2.5", ("litf", t1, "*", 2.5)), ("lite", "a ** 2", ("lite", t1))]
+                if t1 in ("int8", "uint8", "int16", "uint16"):
+                    # literals exactly at and next to the bounds of the narrow types, added to / subtracted from a narrow operand: the
+                    # exact result always fits the 32 bits that narrow operands are computed in, so both languages must agree
+                    for bi, L in enumerate((127, 128, 255, 256, 32767, 32768, 65535, -128, -129, -32768)):      # every literal here fits 16 bits itself
+                        cfs += [("lbs%s" % "abcdefghijkl"[bi], "a - %d" % L if L >= 0 else "a - (%d)" % L, ("lit", t1, "-", L)), ("lba%s" % "abcdefghijkl"[bi], "%d + a" % L, ("litl", t1, "+", L)),
+                                ("lbr%s" % "abcdefghijkl"[bi], "%d - a" % L, ("litl", t1, "-", L))]
                 # a leading minus next to ** (the two target languages give their own operators different precedences): only agreement
                 # between the languages is required here, whatever the expression means
                 if not (is_int(t1) and INT_RANGE[t1][0] == 0):      # the negation of an unsigned operand has no value in its static type
